@@ -109,15 +109,38 @@ def _local_names_ref():
     return _REF
 
 
+_FREF = None
+
+
+def _functions_ref():
+    """spec/functions_ref.json: {module: [qualified function names of the reference tree]}"""
+    global _FREF
+    if _FREF is None:
+        import json
+
+        p = os.path.join(os.path.dirname(os.path.dirname(os.path.abspath(__file__))), "spec", "functions_ref.json")
+        try:
+            with open(p, encoding="utf-8") as f:
+                _FREF = json.load(f)
+        except OSError:
+            _FREF = {}
+    return _FREF
+
+
 class Module:
     def __init__(self, name, path, text):
         self.name = name  # e.g. "pecc"
         self.path = path  # e.g. "buidl/pecc.py"
         self.text = text
         self.sha256 = hashlib.sha256(text.encode()).hexdigest()
+        from .inline import Inliner
         from .normal import normalise
 
-        self.tree = normalise(ast.parse(text, filename=path))
+        raw = ast.parse(text, filename=path)
+        # helpers that do not exist in the reference tree are inlined back into their callers (sa/inline.py)
+        ref_funcs = _functions_ref().get(name)
+        self.inlined = Inliner(raw, name, set(ref_funcs)).run() if ref_funcs is not None else []
+        self.tree = normalise(raw)
         self.functions = {}  # qualname -> FunctionDef
         self.classes = {}  # name -> ClassDef
         self.constants = {}  # name -> ast expr (module-level single-target assigns; last one wins)
